@@ -227,6 +227,8 @@ type prop[C any] struct {
 	// Pre runs once per process before the random search (exhaustive sub-spaces, fixed
 	// regression cases); it returns the first failure found.
 	Pre func(r *ev.Recorder, run func(c C) *Failure) *Failure
+	// Inflight makes the runner persist every case before executing it (crash attribution).
+	Inflight bool
 }
 
 func (p *prop[C]) run(t *testing.T) {
@@ -241,7 +243,18 @@ func (p *prop[C]) run(t *testing.T) {
 	shardIdx, _ := shard()
 
 	// exec applies the check and the known-findings filter.
+	inflight := ""
+	if p.Inflight {
+		inflight = os.Getenv("VERIF_INFLIGHT")
+	}
 	exec := func(c C) *Failure {
+		if inflight != "" {
+			// An unrecoverable runtime error (stack overflow, concurrent map write) kills the
+			// process: leave the case behind so that the driver can attribute the death.
+			cs, _ := json.Marshal(c)
+			data, _ := json.Marshal(replayFile{Property: p.ID, Key: "process-died", Msg: "the process died (fatal runtime error) while checking this case", Test: currentTestName, Case: cs})
+			os.WriteFile(inflight, data, 0o644)
+		}
 		f := guard(func() *Failure { return p.Check(c, rec) })
 		if f != nil {
 			if _, ok := known[f.Key]; ok {
